@@ -20,9 +20,9 @@ def write_cfg(ctx, name, depth, fillto=0, countbug=False, diagbug=False, invs=No
     return p
 
 
-def mc_replays(ctx, kinds, depth, workers=12, maxref=3, salts=(1, 2), name="mc", fillto=0, invs=None, timeout=3600):
+def mc_replays(ctx, kinds, depth, workers=12, maxref=3, salts=(1, 2), name="mc", fillto=0, invs=None, timeout=3600, defaults=False):
     """Model check MC_Tables over `kinds` to `depth`; returns the leaf histories as harness programs."""
-    md = schema.menu_data(kinds, salts=salts, maxref=maxref)
+    md = schema.menu_data(kinds, salts=salts, maxref=maxref, defaults=defaults)
     mpath = ctx.path(name + ".menu.json")
     with open(mpath, "w") as f:
         json.dump(md, f)
@@ -58,12 +58,33 @@ def mc_replays_parallel(ctx, jobs, name="mc"):
     return out
 
 
-def random_programs(rng, kinds, n, nops, maxcalls=4):
+DEFAULT_INVS = ["InvMech", "InvC01", "InvC02", "InvC05", "EmitInv"]     # Default-built entries have no type / length of their own (no walk)
+
+
+def default_programs(ctx, rng, th, name="mcdef", kinds=None):
+    """Histories that mix constructor-built entries with entries obtained from the entry types' Default: every such
+    history of MC_Tables to depth 3 (2 with the quick tier's full menus), seeded random ones, and one long one per table."""
+    kinds = kinds or sorted(schema.DEFAULTS)
+    progs = mc_replays(ctx, kinds, 3 if th else 2, workers=8, maxref=1, salts=(1,), name=name, invs=DEFAULT_INVS, defaults=True)
+    progs = [p for p in progs if any(o["op"] == "add_default" for o in p["ops"])]
+    progs += random_programs(rng, kinds, 600 if th else 120, [1, 2, 3, 5, 9, 20], defaults=True)
+    for k in kinds:
+        g = schema.TableGen(schema.Rand(rng), k)
+        for i in range(300):
+            if i % 2:
+                g.add_default()
+            else:
+                g.add(maxcalls=1)
+        progs.append(g.program())
+    return progs
+
+
+def random_programs(rng, kinds, n, nops, maxcalls=4, defaults=False):
     progs = []
     for i in range(n):
         kind = kinds[i % len(kinds)]
         k = nops if isinstance(nops, int) else rng.choice(nops)
-        p = schema.random_program(rng, kind, k, maxcalls)
+        p = schema.random_program(rng, kind, k, maxcalls, defaults=defaults)
         if i % 5 == 4 and kind not in ("FADT", "TCPA_SERVER"):
             p["shadow"] = True          # a second builder of the same type is alive and growing in lock-step
         if i % 7 == 3:
